@@ -112,7 +112,7 @@ class C07Check(Check):
                 "dup_annot_idx": g.chance(0.2),
             }
             cycles.append(cyc)
-        return {"engine": "crowdsim", "subject": subject, "model": "pwc", "seed": g.randrange(0, 1000), "X": X.tolist(), "y0": y0, "truth": truth, "cycles": cycles, "y_aggregate": g.pick([None, None, "mv3", "first"])}
+        return {"engine": "crowdsim", "subject": subject, "model": "pwc", "seed": g.randrange(0, 1000), "X": X.tolist(), "y0": y0, "truth": truth, "cycles": cycles, "y_aggregate": g.pick([None, None, "mv3", "first"]), "iet": g.pick([None, None, {"epsilon": 0.5, "alpha": 0.5}, {"epsilon": 1.0, "alpha": 0.01}, {"epsilon": 0.0, "alpha": 0.2}])}
 
     # ------------------------------------------------------------------
     def _strategy(self, sc):
@@ -121,7 +121,7 @@ class C07Check(Check):
         if sc["subject"] == "IntervalEstimationThreshold":
             from skactiveml.classifier.multiannotator import AnnotatorLogisticRegression
 
-            return IntervalEstimationThreshold(random_state=sc["seed"]), {"clf": AnnotatorLogisticRegression(classes=[0, 1], random_state=0, max_iter=10)}
+            return IntervalEstimationThreshold(random_state=sc["seed"], **(sc.get("iet") or {})), {"clf": AnnotatorLogisticRegression(classes=[0, 1], random_state=0, max_iter=10)}
         key = sc["subject"].split(":", 1)[1]
         inner = R.build_strategy(key, sc["seed"])
         arg, _ = R.model_arg(key)
